@@ -15,6 +15,10 @@ CONSTANTS
   StrideOff = 0
   ReorderMode = "bylayout"
   ZeroGuard = "guarded"
+  WSNum = 1
+  WSDen = 1
+  WScale <- MCWScale
+  SummarySource = "gathered"
   Gens = {1,2,3}
   Ordered = TRUE
   Export = TRUE
